@@ -442,9 +442,9 @@ fn parts(tier: Tier) -> Vec<PartDef> {
     vec![
         PartDef::new(
             "handler-conformance",
-            Cfg::new("C17/handler-conformance").dev(tier.pick(4, 6)),
+            Cfg::new("C17/handler-conformance").dev(tier.pick(5, 8)),
             json!({"apps": "1..3 in every order", "urls": URLS, "key_configurations": 4, "server_historical_keys": "0..2", "response_kinds": 5, "updates_disabled": 2, "source": 2, "cohort": 2, "request_kinds": 5, "apps_named_by_event_requests": "every non-empty subset of the configured apps",
-                   "exchanges_per_case": 2, "exploration": format!("all combinations within {} departures from the default case", tier.pick(4, 6))}),
+                   "exchanges_per_case": 2, "exploration": format!("all combinations within {} departures from the default case", tier.pick(5, 8))}),
             run_handler,
         ),
         PartDef::new(
